@@ -380,3 +380,104 @@ func c10r11(c *RC) {
 	}
 	c.Floor("reader types that compare or hash rows of a frame", n, 2)
 }
+
+// C10-R12: a loop over the readers to be merged (or read in turn) visits every
+// reader.  A `break` out of such a loop, or a `return` in it that reports
+// success, silently drops every later input: the merge ends cleanly without
+// their rows (seed C10-c3, where a `switch` arm "no data, skip" was rewritten
+// as an `if` with a `break`, which in an `if` leaves the loop).
+func c10r12(c *RC) {
+	pr := c.P
+	n := 0
+	for _, fn := range readerFuncs(pr) {
+		if fn.Body == nil {
+			continue
+		}
+		fq := fn.QName()
+		inspectNoLit(fn.Body, func(nd ast.Node) bool {
+			rs, ok := nd.(*ast.RangeStmt)
+			if !ok {
+				return true
+			}
+			t := fn.Pkg.Info.TypeOf(rs.X)
+			if t == nil {
+				return true
+			}
+			sl, ok := t.Underlying().(*types.Slice)
+			if !ok || short(namedQName(sl.Elem())) != "sliceio.Reader" {
+				return true
+			}
+			n++
+			bad := ""
+			var badPos token.Pos
+			var walk func(nd ast.Node, breakable bool)
+			walk = func(nd ast.Node, inner bool) {
+				ast.Inspect(nd, func(m ast.Node) bool {
+					switch x := m.(type) {
+					case *ast.FuncLit:
+						return false
+					case *ast.ForStmt:
+						if m != nd {
+							walk(x.Body, true)
+							return false
+						}
+					case *ast.RangeStmt:
+						if m != nd {
+							walk(x.Body, true)
+							return false
+						}
+					case *ast.SwitchStmt:
+						walk(x.Body, true)
+						return false
+					case *ast.TypeSwitchStmt:
+						walk(x.Body, true)
+						return false
+					case *ast.SelectStmt:
+						walk(x.Body, true)
+						return false
+					case *ast.BranchStmt:
+						if x.Tok == token.BREAK && (x.Label != nil || !inner) {
+							// a labelled break is held to the same rule unless it names an inner statement
+							if x.Label != nil {
+								if ls, ok := labelTarget(fn, x.Label.Name); ok && ls != ast.Stmt(rs) && rs.Pos() <= ls.Pos() && ls.End() <= rs.End() {
+									return true
+								}
+							}
+							bad, badPos = "leaves the loop with break", x.Pos()
+						}
+					case *ast.ReturnStmt:
+						if len(x.Results) > 0 {
+							last := x.Results[len(x.Results)-1]
+							if id, ok := ast.Unparen(last).(*ast.Ident); ok && id.Name == "nil" {
+								if tt := fn.Pkg.Info.TypeOf(last); tt == nil || typeString(tt) == "untyped nil" {
+									bad, badPos = "returns success from inside the loop", x.Pos()
+								}
+							}
+						}
+					}
+					return true
+				})
+			}
+			walk(rs.Body, false)
+			pos := rs.Pos()
+			if bad != "" {
+				pos = badPos
+			}
+			c.Check(bad == "", fq+"|visits-every-reader:"+canon(fn, rs.X), pr.Pos(pos),
+				strings.TrimPrefix(fq, ".")+" "+bad+" while ranging over its input readers ("+expr(rs.X)+"): the readers after that point are never examined, so their rows are dropped and the stream still ends cleanly")
+			return true
+		})
+	}
+	c.Floor("loops over a slice of input readers", n, 3)
+}
+
+func labelTarget(fn *Func, name string) (ast.Stmt, bool) {
+	var out ast.Stmt
+	ast.Inspect(fn.Body, func(m ast.Node) bool {
+		if ls, ok := m.(*ast.LabeledStmt); ok && ls.Label.Name == name {
+			out = ls.Stmt
+		}
+		return true
+	})
+	return out, out != nil
+}
